@@ -7,8 +7,6 @@ import (
 	"math/big"
 	"strings"
 
-	"github.com/bilibili/smgo/sm2"
-
 	"verif/sim/core"
 	"verif/sim/dev/rng"
 	"verif/sim/ref"
@@ -26,7 +24,11 @@ type c02Script struct {
 	E       string      `json:"e"`
 	Content rng.Content `json:"content"`
 	Program []rng.Step  `json:"program,omitempty"` // short reads / stalls only: must not change the value
-	Note    string      `json:"note,omitempty"`
+	// FinalEOF: every draw is one full read and the read that completes the accepted
+	// candidate also returns io.EOF (a legal io.Reader): the value must be produced all the same
+	FinalEOF  bool   `json:"final_eof,omitempty"`
+	ViaGlobal bool   `json:"via_global,omitempty"`
+	Note      string `json:"note,omitempty"`
 }
 
 type c02 struct{}
@@ -50,7 +52,7 @@ func (c02) Meta() core.Meta {
 		Components: map[string]string{"sm2.SignHashed": "real", "randomness source": "stub (simulated device)", "oracle": "sm2ref.Sign (GM/T 0003.2 over math/big affine arithmetic; anchored on the GM/T 0003.5 example, cross-checked with crypto/elliptic generic code)"},
 		Assumptions: []string{"sm2ref is correct (anchors in ref.SelfTest)", "private keys longer than 32 bytes are outside the statement (both refuse)",
 			"a key whose value is outside [1,n-2] must be refused whatever its encoded length (the statement speaks of the key's value)"},
-		FaultKinds: []string{"short", "stall", "cand:k>=n", "cand:k=0", "cand:r=0", "cand:r+k=n", "cand:s=0", "key:refused"},
+		FaultKinds: []string{"short", "stall", "final-read-carries-EOF", "cand:k>=n", "cand:k=0", "cand:r=0", "cand:r+k=n", "cand:s=0", "key:refused"},
 		ProbeNames: []string{"rej:k>=n", "rej:k=0", "rej:r=0", "rej:r+k=n", "rej:s=0", "retries>=2", "short-r", "short-s", "key-refused", "key-short-encoding"},
 		StepUnit:   "reader calls + sign calls",
 	}
@@ -171,7 +173,11 @@ func (c02) Generate(idx int, r *core.Rand, tier string) core.Script {
 	}
 	if w.Chance(1, 150) { // a source that is stuck for a long time before it recovers
 		nrej = w.Range(100, 300)
+		if w.Chance(1, 4) {
+			nrej = w.Range(1000, 5000)
+		}
 	}
+	s.ViaGlobal = w.Chance(1, 8)
 	solvedAt, solvedReason := -1, ""
 	if nrej > 0 && ref.KeyValid(d) && w.Chance(2, 3) {
 		solvedAt = w.Intn(nrej)
@@ -237,6 +243,10 @@ func (c02) Generate(idx int, r *core.Rand, tier string) core.Script {
 	}
 	s.E = hx(e)
 	s.Content.TailSeed = w.Uint64()
+	if f.Chance(1, 10) {
+		s.FinalEOF = true
+		return s
+	}
 	if f.Chance(1, 4) {
 		for i := f.Range(1, 6); i > 0; i-- {
 			switch f.Intn(3) {
@@ -261,6 +271,9 @@ func (c02) Decode(raw json.RawMessage) (core.Script, error) {
 		if st.Kind == "err" {
 			return nil, fmt.Errorf("C02 scripts carry no reader errors (that is C19)")
 		}
+	}
+	if s.FinalEOF {
+		s.Program = nil
 	}
 	return &s, nil
 }
@@ -336,10 +349,25 @@ func (c02) Execute(sc core.Script, keep bool) *core.Result {
 		res.Probes["short-s"]++
 	}
 
-	dev := rng.New(s.Content, s.Program, log)
+	prog := s.Program
+	if s.FinalEOF && err0 == nil {
+		// reads 0..len(rejects)-1 are full; the read that completes the accepted candidate
+		// delivers its 32 bytes together with io.EOF
+		prog = nil
+		for range rejects {
+			prog = append(prog, rng.Step{Kind: "full"})
+		}
+		prog = append(prog, rng.Step{Kind: "err", N: 32, Err: "EOF"})
+		res.Faults["final-read-carries-EOF"]++
+	}
+	dev := rng.New(s.Content, prog, log)
 	var r1, s1 []byte
 	var err1 error
-	p, txt, _, _ := core.Catch(func() { r1, s1, err1 = sm2.SignHashed(dev, priv, e) })
+	p, txt, _, _ := core.Catch(func() {
+		c := sm2Call{Op: "SignHashed", Priv: s.Priv, E: s.E, ViaGlobal: s.ViaGlobal}
+		outs, e1 := c.run(dev)
+		r1, s1, err1 = outs[0], outs[1], e1
+	})
 	for k, v := range dev.Fired {
 		res.Faults[k] += v
 	}
@@ -413,9 +441,9 @@ func (c02) Shrinks(sc core.Script) []core.Script {
 		c.Program = nil
 		out = append(out, c)
 	}
-	for i := range s.Content.Candidates {
+	for _, rg := range core.DropRanges(len(s.Content.Candidates)) {
 		c := cp()
-		c.Content.Candidates = append(c.Content.Candidates[:i], c.Content.Candidates[i+1:]...)
+		c.Content.Candidates = append(c.Content.Candidates[:rg[0]], c.Content.Candidates[rg[1]:]...)
 		out = append(out, c)
 	}
 	one := hx(ref.Pad32(big.NewInt(1)))
@@ -430,6 +458,9 @@ func (c02) Shrinks(sc core.Script) []core.Script {
 		out = append(out, c)
 	}
 	for i, cand := range s.Content.Candidates {
+		if len(s.Content.Candidates) > 16 {
+			break
+		}
 		if cand != one && ref.Int(unhx(cand)).Sign() != 0 && ref.Int(unhx(cand)).Cmp(ref.SM2N) < 0 {
 			c := cp()
 			c.Content.Candidates[i] = one
